@@ -436,22 +436,31 @@ Definition hdr_table (h : hdr) : option hdr := if h_count h =? 0 then None else 
 
 Definition hdr_pp (hb : sbases) (h : hdr) : pparams := mkpp hb None (h_asz h).
 
-(* EhHdrTableIter: state = (table reader, remain). `next` returns a value (None | Some row | Err)
-   together with the new iterator state: after a row that fails to parse `remain` is set to 0, so
-   every later call returns None (the reader position left behind is then unobservable). *)
+(* EhHdrTableIter as a state machine: state = (table reader, remain); operations next, nth k,
+   size_hint. Every operation returns a value (None | Some row | Err) together with the new state.
+   After a row that fails to parse `remain` is 0 and the reader stands after the pointers that did
+   parse (a failed fixed-size read consumes nothing; after a failed LEB128 read the position is
+   unobservable, because nth refuses variable-size encodings before touching the reader). *)
 Definition tbl_next (dbg : bool) (hb : sbases) (h : hdr) (st : rd * N)
   : res (step (pointer * pointer) * (rd * N)) :=
   let '(t, remain) := st in
   if remain =? 0 then Ok (SNone, st) else
-  (* self.remain -= 1; then the closure parse_row *)
-  match (let* (from, t1) := parse_encoded_pointer dbg (h_be h) (h_enc h) (hdr_pp hb h) t in
-         let* (to, t2) := parse_encoded_pointer dbg (h_be h) (h_enc h) (hdr_pp hb h) t1 in
-         Ok ((from, to), t2)) with
-  | Ok (row, t2) => Ok (SSome row, (t2, remain - 1))
+  (* self.remain -= 1; then the closure parse_row; remain = 0 if it failed *)
+  match parse_encoded_pointer dbg (h_be h) (h_enc h) (hdr_pp hb h) t with
+  | Ok (from, t1) =>
+      match parse_encoded_pointer dbg (h_be h) (h_enc h) (hdr_pp hb h) t1 with
+      | Ok (to, t2) => Ok (SSome (from, to), (t2, remain - 1))
+      | Err e => Ok (SErr e, (t1, 0))
+      | Panic => Panic
+      | OutOfFuel => OutOfFuel
+      end
   | Err e => Ok (SErr e, (t, 0))
   | Panic => Panic
   | OutOfFuel => OutOfFuel
   end.
+
+(* EhHdrTable::iter(bases) *)
+Definition tbl_iter (h : hdr) : rd * N := (h_table h, h_count h).
 
 (* size of one field for the fixed-size table encodings; None = UnsupportedPointerEncoding *)
 Definition tbl_field_size (enc : N) : option N :=
@@ -476,20 +485,58 @@ Fixpoint tbl_all_loop (fuel : nat) (dbg : bool) (hb : sbases) (h : hdr) (st : rd
       end
   end.
 Definition tbl_all (dbg : bool) (hb : sbases) (h : hdr) : res (list (pointer * pointer) * option error) :=
-  tbl_all_loop (S (length (win (h_table h)))) dbg hb h (h_table h, h_count h).
+  tbl_all_loop (S (length (win (h_table h)))) dbg hb h (tbl_iter h).
 
-(* EhHdrTableIter::nth(n) on a fresh iterator; n : usize. `n.checked_mul(row_size)` *)
-Definition tbl_nth (dbg : bool) (hb : sbases) (h : hdr) (n : N) : res (option (pointer * pointer)) :=
+(* EhHdrTableIter::nth(n), n : usize (= u64: try_from cannot fail):
+   size check, remain = remain.saturating_sub(n), n.checked_mul(row_size), table.skip, next() *)
+Definition tbl_nth_st (dbg : bool) (hb : sbases) (h : hdr) (st : rd * N) (n : N)
+  : res (step (pointer * pointer) * (rd * N)) :=
+  let '(t, remain) := st in
   match tbl_field_size (h_enc h) with
-  | None => Err EUnsupportedPointerEncoding
+  | None => Ok (SErr EUnsupportedPointerEncoding, st)
   | Some size =>
       let row_size := size * 2 in
-      let remain := (if n <=? h_count h then h_count h - n else 0) in     (* saturating_sub *)
-      if two64 <=? n * row_size then Err EUnsupportedOffset else
-      let* t := rd_skip (n * row_size) (h_table h) in
-      let* (s, _) := tbl_next dbg hb h (t, remain) in
-      match s with SNone => Ok None | SSome row => Ok (Some row) | SErr e => Err e end
+      let remain' := (if n <=? remain then remain - n else 0) in
+      if two64 <=? n * row_size then Ok (SErr EUnsupportedOffset, (t, remain')) else
+      match rd_skip (n * row_size) t with
+      | Ok t' => tbl_next dbg hb h (t', remain')
+      | Err e => Ok (SErr e, (t, remain'))
+      | Panic => Panic
+      | OutOfFuel => OutOfFuel
+      end
   end.
+
+(* Iterator::size_hint / FallibleIterator::size_hint: (remain, Some(remain)) — usize = u64 *)
+Definition tbl_size_hint (st : rd * N) : N * option N := (snd st, Some (snd st)).
+
+(* histories of operations on one iterator *)
+Inductive iop := ONext | ONth (k : N) | OHint.
+Inductive iobs := BItem (o : option (pointer * pointer)) | BErr (e : error) | BHint (lo : N) (hi : option N)
+                | BPanic | BFuel.
+
+Definition obs_of_step (s : step (pointer * pointer)) : iobs :=
+  match s with SNone => BItem None | SSome r => BItem (Some r) | SErr e => BErr e end.
+
+Fixpoint tbl_run (dbg : bool) (hb : sbases) (h : hdr) (st : rd * N) (ops : list iop) : list iobs :=
+  match ops with
+  | [] => []
+  | OHint :: r => BHint (fst (tbl_size_hint st)) (snd (tbl_size_hint st)) :: tbl_run dbg hb h st r
+  | ONext :: r =>
+      match tbl_next dbg hb h st with
+      | Ok (s, st') => obs_of_step s :: tbl_run dbg hb h st' r
+      | Err e => [BErr e] | Panic => [BPanic] | OutOfFuel => [BFuel]
+      end
+  | ONth k :: r =>
+      match tbl_nth_st dbg hb h st k with
+      | Ok (s, st') => obs_of_step s :: tbl_run dbg hb h st' r
+      | Err e => [BErr e] | Panic => [BPanic] | OutOfFuel => [BFuel]
+      end
+  end.
+
+(* nth on a fresh iterator *)
+Definition tbl_nth (dbg : bool) (hb : sbases) (h : hdr) (n : N) : res (option (pointer * pointer)) :=
+  let* (s, _) := tbl_nth_st dbg hb h (tbl_iter h) n in
+  match s with SNone => Ok None | SSome row => Ok (Some row) | SErr e => Err e end.
 
 (* the `while len > 1` loop of EhHdrTable::lookup; returns the reader positioned at the chosen row *)
 Fixpoint lookup_loop (fuel : nat) (dbg : bool) (hb : sbases) (h : hdr) (row_size address : N)
